@@ -57,6 +57,7 @@ def run(ctx: Ctx) -> Result:
         try: return P.compile_script(src)
         except BaseException as e: return 'ERR:' + type(e).__name__
     dec_lines, dec_expect = [], []
+    lex_srcs = []          # sources whose tokenization is compared with the model's (Model/Lex.lean; theorems Props/C11Lex.lean)
     rejected = 0
     lenient_rejections = 0
     # (1) random abstract programs in random spellings
@@ -66,6 +67,7 @@ def run(ctx: Ctx) -> Result:
         for v in range(2 if i % 3 == 0 else 1):
             src = g.source(prog)
             res.note_case(src, bool(prog))
+            if i % 2 == 0 and len(src) < 20000: lex_srcs.append(src)
             got = comp(src)
             if got != want:
                 if isinstance(got, str):
@@ -170,6 +172,24 @@ def run(ctx: Ctx) -> Result:
         got = comp(src)
         if isinstance(got, bytes):
             viol(src, 'an error (the source cannot be encoded)', 'assembled to ' + got.hex()[:200], 'rejection')
+    # (4b) the tokenizer itself, word for word, against the model (for which "nothing dropped, duplicated or reordered" is a theorem)
+    lex_srcs += [src for src, _ in sugar] + [b for b in bad_sources if len(b) < 20000]
+    lex_srcs += ['s', 'push s', '@=', 'x @=', '!= a', "s' a b' c", 's"" a "', 's"a', 's"a b', 'd', 'x', 'dx', 'xg', 'x0g', 'd12 d1a d-1 d+1 d1.5', '@', '!', '@x !y', 'a\x1cb', 'a\x0bb \x0c c', '',
+                 '   ', 's"" dup s"" dup', "s'' s\"\" s'a' s\"b\" x", 's"it\'s" dup', "s'say \"hi\"' dup", 'sx s1 S"a" s"A"', '@= k [ x01 ]', '!= m [ a ] { push a }', 'push s"a" @= v 1', 'd', 'dd', 'xx', 'x1', 'xabc', 'xAB', 'Xab']
+    rng_l = ctx.sub_rng('c11-lex')
+    alpha = ['s"', "s'", '"', "'", 's', 'd', 'x', '@=', '!=', '@', '!', 'a', 'dup', '1', 'f', ' ', ' ', ' ', '\n', '\t', '{', '}', '#']
+    for _ in range(ctx.n(3000, 30000)):
+        lex_srcs.append(''.join(rng_l.choice(alpha) for _ in range(rng_l.randrange(1, 14))))
+    lex_srcs = [x for x in lex_srcs if x.isascii()]
+    lex_lines, lex_expect = [], []
+    for src in lex_srcs:
+        try: e_ = 'OK ' + ','.join(sym.encode().hex() for sym in P.get_symbols(src))
+        except BaseException as ex:
+            if isinstance(ex, (KeyboardInterrupt, SystemExit)): raise
+            e_ = 'ERR'
+        lex_lines.append('SYMS ' + (src.encode().hex() or '-')); lex_expect.append(e_.strip())
+        res.note_case(('lex', src[:200]))
+    res.stats['sources_tokenized_on_model_and_implementation'] = len(lex_lines)
     # (5) the reference is the Lean model's: its decoder reads the documented encoding back as the abstract program
     if ctx.driver.available:
         try:
@@ -178,6 +198,9 @@ def run(ctx: Ctx) -> Result:
                 res.note_case(('dec', l[:200]))
                 if r != e and len(res.disagreements) < 20:
                     res.disagreements.append({'line': l[:300], 'model': r[:300], 'reference_assembler': e[:300]})
+            for l, r, e in zip(lex_lines, ctx.driver.run(lex_lines), lex_expect):
+                if r.strip() != e and len(res.disagreements) < 20:
+                    res.disagreements.append({'tokenizer': bytes.fromhex(l[5:] if l[5:] != '-' else '').decode()[:300], 'model': r[:300], 'get_symbols': e[:300]})
         except DriverCrash as e:
             res.disagreements.append({'driver': str(e)[:300]})
     else:
